@@ -100,7 +100,7 @@ def case_pool(T, cfg):
     keep = [k for k in range(nd) if k not in mask]
     D, Din = _stack(T, 'd', cfg['n_rdm'], nd, mask)
     method = cfg['method']
-    _assume(T, method, [[r[k] for k in keep] for r in D])
+    _assume(T, 'corr' if method.startswith('corr') else 'cosine', [[r[k] for k in keep] for r in D])
     if cfg['which'] == 'inference_util':
         from rsatoolbox.util.inference_util import pool_rdm
         got = pool_rdm(RDMs(Din), method).dissimilarities[0]
@@ -113,6 +113,26 @@ def case_pool(T, cfg):
     T.concrete('NaN exactly at the missing entries', [bool(isnan(x)) for x in got] == [k in mask for k in range(nd)], key=key)
     if ref is not None:
         T.eq('values = pool of the entry-deleted rdms', [got[k] for k in keep], list(ref), key=key)
+    elif method in ('cosine_cov', 'corr_cov'):
+        # util.pooling: each rdm is normalised by sqrt(x' V^-1 x) with the rows/columns of V of missing entries deleted
+        from harness.C03 import quad
+        V = v_matrix(n, None)
+        Vinv = mat_inv([[V[i][j] for j in keep] for i in keep])
+        rows = []
+        for r in range(cfg['n_rdm']):
+            x = [D[r, k] for k in keep]
+            if method == 'corr_cov':
+                x = center(x)
+            nrm = sqrt(quad(x, Vinv, x))
+            rows.append([v / nrm for v in x])
+        m = [total(rw[j] for rw in rows) / len(rows) for j in range(len(keep))]
+        if method == 'corr_cov':
+            lo = m[0]
+            for x in m[1:]:
+                if bool(x < lo):
+                    lo = x
+            m = [x - lo + (Fraction(1, 100) if T.symbolic else 0.01) for x in m]
+        T.eq('values', [got[k] for k in keep], m, key=key)
     else:
         # util.pooling: weighted by V^-1 norm for *_cov; plain methods as in inference_util
         from harness.C07 import ref_pool
@@ -126,9 +146,13 @@ def case_pool(T, cfg):
                 sd = sqrt(dot(c, c) / len(c))
                 rows.append([x / sd for x in c])
             m = [total(r[j] for r in rows) / len(rows) for j in range(len(keep))]
+            lo = m[0]
+            for x in m[1:]:
+                if bool(x < lo):
+                    lo = x
             want = [np.nan] * nd
             for j, k in enumerate(keep):
-                want[k] = m[j]
+                want[k] = m[j] - lo + Fraction(1, 100) if T.symbolic else m[j] - lo + 0.01
         T.eq('values', [got[k] for k in keep], [want[k] for k in keep], key=key)
 
 
@@ -195,8 +219,11 @@ def case_fit(T, cfg):
     Bv = T.arr('m', (2, nd))
     method = cfg['method']
     _assume(T, method, [[r[k] for k in keep] for r in D])
-    model = ModelWeighted('w', RDMs(Bv.copy()))
-    theta = fit_regress(model, RDMs(Din), method=method)
+    Bin = Bv.copy()
+    for k in mask:
+        Bin[:, k] = np.nan          # the model prediction misses the same entries (as after a pattern bootstrap)
+    model = ModelWeighted('w', RDMs(Bin))
+    theta = fit_regress(model, RDMs(Din), method=method, normalize=False)
     # reference: least squares of the pooled data on the basis, restricted to the kept entries
     from harness.C07 import ref_pool
     vec = [[np.nan if k in mask else D[r, k] for k in range(nd)] for r in range(cfg['n_rdm'])]
@@ -208,10 +235,9 @@ def case_fit(T, cfg):
     G = [[dot(X[a], X[b]) for b in range(2)] for a in range(2)]
     rhs = [dot(X[a], y) for a in range(2)]
     key = f'C13:fit:{method}'
-    # normal equations hold up to the (positive) normalisation of theta:  G theta  is proportional to  X'y
+    # normal equations of the least-squares problem restricted to the kept entries
     gt = [G[a][0] * theta[0] + G[a][1] * theta[1] for a in range(2)]
-    T.eq('normal equations on the kept entries (cross product form)', gt[0] * rhs[1], gt[1] * rhs[0], key=key)
-    T.eq('unit norm', theta[0] * theta[0] + theta[1] * theta[1], 1, key=key)
+    T.eq('normal equations on the kept entries', gt, rhs, key=key)
 
 
 CASES = dict(compare=case_compare, reject=case_reject, reject_stack=case_reject_stack, pool=case_pool, mean=case_mean,
@@ -247,7 +273,13 @@ def configs(tier):
     for which in ['inference_util', 'pooling']:
         for method in ['cosine', 'corr']:
             out.append(dict(case='pool', which=which, method=method, n_cond=4, n_rdm=2, mask=[0, 3, 5]))
-            out.append(dict(case='pool', which=which, method=method, n_cond=4, n_rdm=2, mask=[2]))
+            if method == 'cosine' or not quick:
+                out.append(dict(case='pool', which=which, method=method, n_cond=4, n_rdm=2, mask=[2]))
+    for method in ['cosine_cov', 'corr_cov']:
+        out.append(dict(case='pool', which='pooling', method=method, n_cond=4, n_rdm=2, mask=[0, 3, 5]))
+        out.append(dict(case='pool', which='pooling', method=method, n_cond=3, n_rdm=2, mask=[]))
+        if not quick:
+            out.append(dict(case='pool', which='pooling', method=method, n_cond=4, n_rdm=2, mask=[1, 2]))
     for w in ['none', 'array', 'desc']:
         for nan_at in [[], [[0, 1]], [[0, 0], [1, 0]], [[0, 2], [1, 1]]]:
             out.append(dict(case='mean', weights=w, n_rdm=2, nan_at=nan_at))
